@@ -255,7 +255,8 @@ def value_grid(part, nparts):
             for hms in ((0, 0, 0), (23, 59, 59), (1, 2, 3), (10, 0, 0)):
                 for us in (0, 1, 10, 100000, 123456, 999999, 500):
                     for tz in (None, D.timezone.utc, D.timezone(D.timedelta(hours=5, minutes=30)), D.timezone(D.timedelta(minutes=-1)),
-                               D.timezone(D.timedelta(hours=-12)), D.timezone(D.timedelta(hours=23, minutes=59)), D.timezone(D.timedelta(hours=-5))):
+                               D.timezone(D.timedelta(hours=-12)), D.timezone(D.timedelta(hours=23, minutes=59)), D.timezone(D.timedelta(hours=-5)),
+                               D.timezone(D.timedelta(hours=5, minutes=30, seconds=15)), D.timezone(-D.timedelta(seconds=1)), D.timezone(D.timedelta(minutes=19, seconds=32, microseconds=130000))):
                         i += 1
                         if i % nparts == part:
                             yield D.datetime(day.year, day.month, day.day, *hms, us, tzinfo=tz)
